@@ -1,4 +1,4 @@
-from typedpy.structures import Field, Structure, TypedField, ClassReference
+from typedpy.structures import Field, Structure, TypedField, ClassReference, StructMeta
 from typedpy.commons import python_ver_atleast_39, wrap_val
 from .collections_impl import ContainNestedFieldMixin, _CollectionMeta
 from .fields import verify_type_and_uniqueness
@@ -65,12 +65,18 @@ class Tuple(ContainNestedFieldMixin, TypedField, metaclass=_CollectionMeta):
             for item in items:
                 if isinstance(item, Field):
                     self.items.append(item)
+                elif isinstance(item, StructMeta):
+                    # a Structure class, as in Tuple[Integer, Foo] / Array(items=[Integer, Foo])
+                    self.items.append(ClassReference(item))
                 elif Field in item.__mro__:
                     self.items.append(item())
                 else:
                     raise TypeError("Expected a Field class or instance")
         elif isinstance(items, (Field,)):
             self.items = [items]
+        elif isinstance(items, StructMeta):
+            # a single Structure class, as in Tuple[Foo]
+            self.items = [ClassReference(items)]
         elif Field in getattr(items, "__mro__", ()):
             # a Field class (e.g. tuple[int] maps to Tuple(items=Integer)): instantiate it, as for a list of items
             self.items = [items()]
